@@ -338,15 +338,39 @@ def consumer_loops(R, ctx):
         # FLUSH arm must flush; data arm must write: inspect all rows incl. cut ones via a second run that records arms
         R.check('R04.4', f"{spawner}|consumer-exits", not bad and kinds >= {'disconnect', 'shutdown'}, f"{len(rows)} complete rows: the loop ends on disconnect or SHUTDOWN"
                 + (" after State::shutdown" if need_shutdown else ''), f"{spawner}: {bad or 'an exit kind is missing: ' + str(kinds)}", where=x.loc())
-        # arms: for a message equal to FLUSH the flush effect follows; otherwise write
-        # (in the body that holds the loop: the spawned closure itself or the named function it runs)
-        lbs = [f.bodies[q] for q in cg.reachable([x.path], spawn=False) if q in f.bodies and any(callee_name(t).endswith('Receiver::<T>::recv') for _, t in f.bodies[q].calls())]
-        lb = lbs[0] if len(lbs) == 1 else x
-        recvs = [bb for bb, t in lb.calls() if callee_name(t).endswith('Receiver::<T>::recv')]
-        flushes = [bb for bb, t in lb.calls() if re.search(r'State::flush$|::flush$', callee_name(t))]
-        writes = [bb for bb, t in lb.calls() if re.search(r'State::write_buffer$|::write_all$', callee_name(t))]
-        ok = len(recvs) == 1 and flushes and writes and all(C.path_exists(lb, bb, recvs[0]) for bb in flushes + writes)
-        R.check('R04.4', f"{spawner}|arms", bool(ok), "FLUSH arm flushes, data arm writes, both return to recv", f"{spawner}: a message arm is missing or does not return to the loop", where=x.loc())
+        # arms, on the rows (the dispatch may live in the loop body or in a helper it calls): after a FLUSH message a flush effect follows
+        # before the next receive, after a data message a write; both go on to the next receive
+        arm_bad = None
+        seen_arms = set()
+        for r in rows:
+            effs = r.effects
+            nm = [e[0].split('::')[-1] for e in effs]
+            recvs_i = [i for i, n_ in enumerate(nm) if n_ == 'recv']
+            for j, ri in enumerate(recvs_i):
+                if j + 1 >= len(recvs_i):
+                    continue            # the last receive of the row: exit / cut
+                seg = nm[ri + 1:recvs_i[j + 1]]
+                k = ri + 1
+                kind = 'data'
+                for a_, v_ in r.cond:
+                    if re.match(rf"^crossbeam_channel::Receiver::<T>::recv#{k}\.0\[0\]$", a_):
+                        kind = {'83': 'S', '70': 'F'}.get(str(v_), 'data')
+                    info = r.atom_info.get(a_, {})
+                    if info.get('kind') == 'ord' and v_ == 'eq':
+                        for (c_, o_) in ((info['a'], info['b']), (info['b'], info['a'])):
+                            if isinstance(c_, tuple) and c_[0] == 'const' and c_[1] in (b'S', b'F') and T.eff_indices(o_, r'Receiver::<T>::recv$') == {k}:
+                                kind = c_[1].decode()
+                if kind == 'F':
+                    seen_arms.add('F')
+                    if 'flush' not in seg:
+                        arm_bad = f"after a FLUSH message no flush happens before the next receive (effects: {seg})"
+                elif kind == 'data':
+                    seen_arms.add('data')
+                    if not any(x in seg for x in ('write_buffer', 'write_all')):
+                        arm_bad = f"after a data message nothing is written before the next receive (effects: {seg})"
+        if not arm_bad and not {'F', 'data'} <= seen_arms:
+            raise CheckError(f"R04.4 {spawner}: message arms not recognised on the rows ({seen_arms})")
+        R.check('R04.4', f"{spawner}|arms", not arm_bad, "FLUSH arm flushes, data arm writes, both return to recv", f"{spawner}: {arm_bad}", where=x.loc())
 
 
 def join_under_handle_lock(R, ctx):
